@@ -85,6 +85,8 @@ type VFD struct {
 	Dq    []Dgram       // datagram receive queue (Recvfrom)
 	Sent  []Dgram       // datagrams sent with Sendto
 
+	RdIntr int // number of upcoming read calls answered with EINTR before the queue is looked at
+
 	Reads     int64 // number of read calls
 	ReadsIdle int64 // number of read calls that found nothing (EAGAIN)
 	Writes    int64 // number of write-like calls
@@ -183,10 +185,25 @@ func Write(fd int, b []byte) (int, error) {
 
 func Read(fd int, b []byte) (int, error) {
 	if v := get(fd); v != nil {
+		n, err := v.read(b)
+		if h := ReadHook; h != nil {
+			h(fd, n, err)
+		}
+		return n, err
+	}
+	return syscall.Read(fd, b)
+}
+
+func (v *VFD) read(b []byte) (int, error) {
+	{
 		v.mu.Lock()
 		defer v.mu.Unlock()
 		atomic.AddInt64(&v.Reads, 1)
 		v.Log = append(v.Log, "read")
+		if v.RdIntr > 0 {
+			v.RdIntr--
+			return -1, syscall.EINTR
+		}
 		if len(v.Rq) == 0 {
 			if v.RdErr != 0 {
 				return -1, v.RdErr
@@ -201,15 +218,29 @@ func Read(fd int, b []byte) (int, error) {
 		v.Rq = v.Rq[n:]
 		return n, nil
 	}
-	return syscall.Read(fd, b)
 }
 
 func Recvfrom(fd int, b []byte, flags int) (int, syscall.Sockaddr, error) {
 	if v := get(fd); v != nil {
+		n, from, err := v.recvfrom(b)
+		if h := ReadHook; h != nil {
+			h(fd, n, err)
+		}
+		return n, from, err
+	}
+	return syscall.Recvfrom(fd, b, flags)
+}
+
+func (v *VFD) recvfrom(b []byte) (int, syscall.Sockaddr, error) {
+	{
 		v.mu.Lock()
 		defer v.mu.Unlock()
 		atomic.AddInt64(&v.Reads, 1)
 		v.Log = append(v.Log, "recvfrom")
+		if v.RdIntr > 0 {
+			v.RdIntr--
+			return -1, nil, syscall.EINTR
+		}
 		if len(v.Dq) == 0 {
 			if v.RdErr != 0 {
 				return -1, nil, v.RdErr
@@ -222,7 +253,6 @@ func Recvfrom(fd int, b []byte, flags int) (int, syscall.Sockaddr, error) {
 		n := copy(b, d.Data) // excess bytes of a datagram are discarded, as the kernel does
 		return n, d.From, nil
 	}
-	return syscall.Recvfrom(fd, b, flags)
 }
 
 func Sendto(fd int, b []byte, flags int, to syscall.Sockaddr) error {
@@ -287,6 +317,9 @@ func Close(fd int) error {
 func Dup(fd int) (int, error) { return syscall.Dup(fd) }
 
 func Connect(fd int, sa syscall.Sockaddr) error {
+	if h := ConnectHook; h != nil {
+		h(fd, sa) // may Adopt(fd) and script ConnectErr/SoError
+	}
 	if v := get(fd); v != nil {
 		v.mu.Lock()
 		defer v.mu.Unlock()
@@ -332,6 +365,12 @@ func EpollCtl(epfd, op, fd int, ev *syscall.EpollEvent) error {
 		}
 		v.mu.Lock()
 		defer v.mu.Unlock()
+		if v.Closed && CtlAfterCloseEBADF {
+			// the descriptor was closed: the kernel answers EBADF (and has dropped the registration)
+			v.Ctl = append(v.Ctl, "X!")
+			v.Log = append(v.Log, "epoll_ctl")
+			return syscall.EBADF
+		}
 		switch op {
 		case syscall.EPOLL_CTL_ADD:
 			if v.Reg {
